@@ -1,0 +1,23 @@
+// SPDX-FileCopyrightText: 2020-present Open Networking Foundation <info@opennetworking.org>
+//
+// SPDX-License-Identifier: Apache-2.0
+
+//go:build verif
+
+package transaction
+
+import (
+	proposalstore "github.com/onosproject/onos-config/pkg/store/v2/proposal"
+	transactionstore "github.com/onosproject/onos-config/pkg/store/v2/transaction"
+	"github.com/onosproject/onos-lib-go/pkg/controller"
+)
+
+// NewReconcilerForVerif returns the transaction reconciler on its own, without the controller runtime
+func NewReconcilerForVerif(transactions transactionstore.Store, proposals proposalstore.Store) controller.Reconciler {
+	return &Reconciler{transactions: transactions, proposals: proposals}
+}
+
+// NewWatchersForVerif returns the transaction controller's watchers, in the order NewController registers them
+func NewWatchersForVerif(transactions transactionstore.Store, proposals proposalstore.Store) []controller.Watcher {
+	return []controller.Watcher{&Watcher{transactions: transactions}, &ProposalWatcher{proposals: proposals}}
+}
